@@ -27,6 +27,17 @@ class Fault(Exception):
     """injected storage failure"""
 
 
+# storage layers fail with all sorts of exception classes; none of them may be mistaken for a protocol condition
+class FaultValue(Fault, ValueError): pass
+class FaultType(Fault, TypeError): pass
+class FaultKey(Fault, KeyError): pass
+class FaultOS(Fault, OSError): pass
+class FaultAttr(Fault, AttributeError): pass
+class FaultLookup(Fault, LookupError): pass
+FAULT_CLASSES = {None: Fault, "Fault": Fault, "ValueError": FaultValue, "TypeError": FaultType, "KeyError": FaultKey, "OSError": FaultOS, "AttributeError": FaultAttr,
+                 "LookupError": FaultLookup}
+
+
 class Clock:
     def __init__(self, now=1_000_000):
         self.now = now
@@ -151,7 +162,7 @@ class Store:
         i = len(self.trace)
         self.trace.append(name)
         if self.fail_at is not None and i == self.fail_at:
-            raise Fault(f"injected fault at callback #{i} {name}")
+            raise FAULT_CLASSES[getattr(self, "fault_type", None)](f"injected fault at callback #{i} {name}")
         self.events.append(name)
 
     def nxt(self, prefix):
